@@ -70,6 +70,22 @@ fn main() {
                     println!("Duration wrapper ({secs}, {nanos}) = {d:?} => {r:?}");
                 }
             }
+            {
+                use cel_interpreter::{Context, Program, Value};
+                for (utc, off) in [(chrono::DateTime::<chrono::Utc>::MAX_UTC, 3600), (chrono::DateTime::<chrono::Utc>::MIN_UTC, -3600), (chrono::DateTime::<chrono::Utc>::MAX_UTC, -3600)] {
+                    let t = utc.with_timezone(&chrono::FixedOffset::east_opt(off).unwrap());
+                    for f in ["getFullYear", "getMonth", "getDayOfYear", "getDate", "getDayOfWeek", "getHours", "getSeconds", "getMilliseconds", "string"] {
+                        let r = std::panic::catch_unwind(|| {
+                            let mut c = Context::default();
+                            c.add_variable_from_value("t", Value::Timestamp(t));
+                            Program::compile(&format!("{f}(t)")).unwrap().execute(&c).map(|v| format!("{v:?}")).map_err(|e| e.to_string())
+                        });
+                        println!("local-out-of-range {off} {f} => {:?}", r.map_err(|_| "PANIC"));
+                    }
+                    let r = std::panic::catch_unwind(|| Value::Timestamp(t).json().map(|j| j.to_string()).map_err(|e| e.to_string()));
+                    println!("local-out-of-range {off} json => {:?}", r.map_err(|_| "PANIC"));
+                }
+            }
             for src in pos.iter() {
                 let r = std::panic::catch_unwind(|| cel_interpreter::Program::compile(src).map(|_| ()).map_err(|e| e.to_string()));
                 println!("{src:?} => {r:?}");
